@@ -8,6 +8,9 @@ GET_AND_UPDATE / MAP (mutating) and MEM / GET / SIZE / ITER (observing), for eve
     sorted, duplicate-free, right members and values; SIZE, MEM k and GET k for every key of the universe and the
     ITER visiting order agree with the reference; GET_AND_UPDATE returns the reference's previous value;
   * a set / map literal is accepted iff its keys are strictly increasing (every key sequence of length 0..3).
+Map values are nat (never falsy in Python) for every key universe and, for the (key universe, value type) pairs of
+VALUE_FOCUS, string / bool / list values that include the FALSY ones ("", False, {}): a stored value is opaque to the
+collection code and an "empty" value is still a value (literal entries, written values, results of MAP).
 Helper: bounded/C14_hist.py.
 """
 from __future__ import annotations
@@ -18,6 +21,8 @@ import os
 from bounded import C14_hist as H
 
 OID = 'SetMap::'
+# (key universe, value type) of the extra map histories whose values include falsy ones
+VALUE_FOCUS = [('int', 'string'), ('pair_int_string', 'string'), ('string', 'bool'), ('option_int', 'list')]
 COMPOSITE_FOCUS = ['int', 'string', 'address', 'pair_int_string', 'pair_nested', 'option_option', 'or_pair_or', 'pair_address_nat']
 
 
@@ -45,6 +50,9 @@ def _plan(thorough):
             if uni in COMPOSITE_FOCUS:
                 plan.append((uni, 'map', 'empty', 5, True))
                 plan.append((uni, 'map', inits[1], 6, None))        # None: UPDATE-only symbols, length 6
+    for uni, vt in VALUE_FOCUS:
+        inits = H.initial_masks(len(H.UNIVERSES[uni][1]))
+        plan += [(uni, f'map:{vt}', m, 4 if thorough else 3, True) for m in (inits[:2] if thorough else inits)]
     return plan
 
 
@@ -67,8 +75,11 @@ def run_R(ck):
     ck.bound('C14_key_universes', {k: [repr(x) for x in v[1]] for k, v in H.UNIVERSES.items()})
     ck.bound('C14_history_length', {
         'quick': 'sets: all histories <= 4 over {add, remove} x keys; maps: all <= 3 over {UPDATE Some/None, GET_AND_UPDATE Some/None} x keys + MAP '
-                 '(<= 4 from the empty map for 4 key types); 3 initial collections each; all 23 key universes',
-        'thorough': 'sets: all histories <= 6; maps: all <= 4 (2 initial collections), <= 5 from the empty map and <= 6 over UPDATE only for 8 key types'}[ck.tier])
+                 '(<= 4 from the empty map for 4 key types); 3 initial collections each; all 23 key universes; nat values, and '
+                 'string / bool / list values including "", False, {} for 4 (key type, value type) pairs (<= 3)',
+        'thorough': 'sets: all histories <= 6; maps: all <= 4 (2 initial collections), <= 5 from the empty map and <= 6 over UPDATE only for 8 key types; '
+                    'falsy-valued maps (4 pairs) <= 4'}[ck.tier])
+    ck.bound('C14_map_value_types', {'all key universes': 'nat', **{f'{u} keys': f'{vt} (falsy values included)' for u, vt in VALUE_FOCUS}})
     ck.bound('C14_literals', 'every key sequence of length 0..3 over the universe, as set and as map literal')
     ck.rule('C14-R: every history of mutating instructions up to the stated length from every initial collection (EMPTY_* instruction, '
             'full literal, {k0,k2} literal), complete observation (content, SIZE, MEM/GET of all keys, ITER order) after every step; '
@@ -77,6 +88,8 @@ def run_R(ck):
     for uni in H.UNIVERSES:
         for kind in ('set', 'map'):
             tasks.append((uni, kind, None, [], 0, True, True))              # literals
+    for uni, vt in VALUE_FOCUS:
+        tasks.append((uni, f'map:{vt}', None, [], 0, True, True))
     for uni, kind, mask, L, with_map in _plan(thorough):
         n = len(H.UNIVERSES[uni][1])
         if kind == 'set':
